@@ -20,7 +20,8 @@ T = 1e-8
 def place3(rng, V):
     M, n = gen.random_rotation(rng, integer=True)
     k = 2.0 ** -int(np.ceil(np.log2(n))) if n > 1 else 1.0
-    t = gen.dy(rng.uniform(-10, 10, 3), 4) * rng.choice([0.0, 1.0])
+    # "any rigid placement": offsets from none to a few hundred shape sizes, in a random direction (not along a diagonal)
+    t = gen.dy(rng.uniform(-1, 1, 3) * float(rng.choice([0.0, 1.0, 10.0, 100.0, 300.0])), 4)
     return V @ M.T * k + t
 
 
@@ -64,7 +65,7 @@ def polyhedra(rng, n):
 
     out = []
     for _ in range(n):
-        kind = rng.choice(["box", "cube", "platonic", "archimedean", "catalan", "prism", "random", "tetra"])
+        kind = rng.choice(["box", "cube", "platonic", "archimedean", "catalan", "prism", "random", "tetra", "dented"])
         if kind == "box":
             a, b, c = [float(x) for x in rng.integers(1, 5, 3)]
             V = np.array([[x, y, z] for x in (0, a) for y in (0, b) for z in (0, c)]); cyc, tan = True, a == b == c
@@ -84,6 +85,13 @@ def polyhedra(rng, n):
             tan = abs(h - 2 * math.cos(math.pi / m)) < 1e-12
             if not tan and abs(h - 2 * math.cos(math.pi / m)) < 0.2:
                 continue
+        elif kind == "dented":
+            # a cyclic solid with one vertex pushed outwards by 2-30 %: convex position kept, no circumsphere (decided exactly by the model)
+            a, b, c = [float(x) for x in rng.integers(1, 4, 3)]
+            V = np.array([[x, y, z] for x in (0, a) for y in (0, b) for z in (0, c)])
+            ctr = V.mean(0); i = int(rng.integers(8))
+            V[i] = ctr + (V[i] - ctr) * (1 + float(rng.choice([0.03125, 0.125, 0.3125])))
+            cyc, tan = None, None
         elif kind == "tetra":
             V = gen.dy(rng.uniform(-1, 1, (4, 3)), 6)
             if abs(np.linalg.det(V[1:] - V[0])) < 0.2:
